@@ -1,7 +1,7 @@
 from common import COMMON_TB
 
 CONFIG = {
-    "lean_modules": ["SA.Props.C09", "SA.Props.C09Inst", "SA.Props.C09Par"],
+    "lean_modules": ["SA.Props.C09", "SA.Props.C09Inst", "SA.Props.C09Par", "SA.Props.C09Domain"],
     "level_text": "Theorems C09_request_roundtrip / C09_labels_ok / C09_too_long_reported proved in Lean for every request "
                   "type, every field value in range, every payload length, every tunnel domain of plain labels and every codec "
                   "pair meeting C08's roundtrip + alphabet_safe: whenever the client's PrepareHostname accepts the "
@@ -21,7 +21,11 @@ CONFIG = {
                   "C09_par_op_pointwise state that the outcome for one query of a batch handled at the same moment is the outcome "
                   "of that query alone and that every in-scope member is decoded as sent; the tie is the `par` op, which pushes "
                   "batches of requests of several users / codecs / commands / domains through the real serializers and the shared "
-                  "codec singletons on G goroutines and compares every result with the same request processed alone.",
+                  "codec singletons on G goroutines and compares every result with the same request processed alone. Domain "
+                  "spellings (SA.Props.C09Domain): C09_fqdn_domain_reported - a tunnel domain written with its final dot makes every "
+                  "request a reported failure (the name ends in two dots and does not pack) in the model, as in the code; all "
+                  "spelling classes (final dot, case, one/many labels, 63/64-octet labels, long, escapes, malformed) are driven "
+                  "through the real code and the model agrees on every one.",
     "level_note": "miekg/dns packDomainName/UnpackDomainName are modelled, not verified (validated on every generated case). "
                   "Library codecs (encoding/base32, base64, ascii85, mtraver/base91, luci base128 decode) are modelled at the "
                   "level of their algorithm in C08 and tied by correspondence. Raw (not name-safe by design) and Base192 (open "
@@ -43,7 +47,11 @@ CONFIG = {
             "requests over random domain lengths 1..235; (7) concurrent batches `par G iters ops`: per selectable codec 8 users' packet "
             "requests (equal payload lengths, and different lengths + a retransmission + another command), 8 mixed batches of 12 "
             "(codecs x commands x 6 domains; Raw and an mtu op once), G=24 x 40 iterations (thorough: 4 rounds, G=48 x 120): every "
-            "result must equal the result of the same request processed alone, before and after. non-trivial = request accepted, packed, unpacked and decoded; "
+            "result must equal the result of the same request processed alone, before and after; (8) 37 spellings of the tunnel "
+            "domain (final dot, upper/mixed case, one label, 12 labels, 63- and 64-octet label, 200/230/240 characters, "
+            "characters miekg escapes written raw and as \\DDD / \\c escapes, empty labels, lone dot, dangling backslash) x 6 codecs "
+            "x 8 requests (thorough 18). For a spelling that is not plain labels only a *silent* difference fails the monitor "
+            "(a reported failure is allowed). non-trivial = request accepted, packed, unpacked and decoded; "
             "distinct = distinct op line",
     "trusted_base": COMMON_TB + ["models SA.Model.DnsWire / DnsReq hand-written; tied by per-op comparison of the unpacked "
                                  "question name (hex), longest label, wire octets and every decoded field",
